@@ -201,7 +201,12 @@ func (g *Gen) MultiOp(op string, kids []*R) *R {
 	switch op {
 	case "join", "joinraw", "stdjoin":
 		return g.node(op, nil, nil, kids...)
-	case "fmterrorfs", "umulti":
+	case "fmterrorfs":
+		if len(kids) < 2 { // fmt.Errorf with a single %w builds a *fmt.wrapError, not a multi-cause error
+			kids = append(kids, g.Leaf())
+		}
+		return g.node(op, []string{g.word()}, nil, kids...)
+	case "umulti":
 		return g.node(op, []string{g.word()}, nil, kids...)
 	}
 	panic("multi op " + op)
